@@ -504,7 +504,7 @@ def gen_script(rng, with_timeouts, with_dead=False):
     operations fail at the connection stage; FH: a GetSession that is not answered before the client's deadline."""
     np = rng.choice([1, 1, 2, 2, 3, 3, 4, 5, 8, 16, 100, 999, 1000, 1001, 1500, 2000])
     n = rng.randrange(3, 28)
-    cmds, short_left, srv, gate, dead, fails = [], 0, 0, 0, 0, 0
+    cmds, short_left, srv, gate, dead, fails, late = [], 0, 0, 0, 0, 0, 0
 
     def sched(kind):
         nonlocal srv
@@ -554,7 +554,7 @@ def gen_script(rng, with_timeouts, with_dead=False):
                 fails += 1
                 dead += 1
             else:
-                mode = rng.choice(["ok", "ok", "ok", "err", "erreff"])
+                mode = rng.choice(["ok", "ok", "ok", "err", "erreff", "errlate"])
                 if mode != "ok":
                     if fails >= 4:
                         mode = "ok"
@@ -562,6 +562,8 @@ def gen_script(rng, with_timeouts, with_dead=False):
                         fails += 1
                         dead += 1
                 cmds.append("R:%d:%s" % (rng.randrange(8), mode) + ("" if mode == "ok" else ":" + rng.choice(CODES)))
+                if mode == "errlate":
+                    late += 1
             srv -= 1
             gate += 1
         else:
@@ -569,6 +571,10 @@ def gen_script(rng, with_timeouts, with_dead=False):
                 continue
             cmds.append("G:%d" % rng.randrange(6))
             gate -= 1
+        if late and rng.random() < 0.25:
+            # a write the service answered with an error status although it had accepted it is applied now
+            cmds.append("L:%d" % rng.randrange(3))
+            late -= 1
         # the pattern that exposes an early setIdle: release, schedule, then open the gate
         if np <= 4 and srv > 0 and rng.random() < 0.2:
             cmds += ["R:0:ok", "S", "G:0"]
@@ -617,8 +623,10 @@ def analyse_proto(b):
     st, lastw, readval, hobs, fail = {}, 0, {}, [], None
     applied = {}    # process -> the register applied its current write
     stats = {"ops": 0, "failed": 0, "timeouts": 0, "late_effects": 0, "gates": 0, "conn_failures": 0, "not_applied": 0,
-             "failed_at_connect": 0, "failed_at_session": 0, "failed_at_propose": 0, "failed_at_read": 0, "ops_after_a_failure_elsewhere": 0}
+             "failed_at_connect": 0, "failed_at_session": 0, "failed_at_propose": 0, "failed_at_read": 0, "ops_after_a_failure_elsewhere": 0, "requests_received": 0, "error_replies": 0, "error_codes": {}}
     notes = []
+    recv = {}       # process -> {method: requests the service received for the current operation}
+    srverr = {}     # process -> (method, code) of an error status the service answered the current operation with
     lastm = {}      # process -> last rpc method of its current operation ("connect" while none has left the client)
     nfailed = 0
 
@@ -645,9 +653,18 @@ def analyse_proto(b):
                 st[p] = ("invoked", t, v)
                 applied[p] = False
                 lastm[p] = "connect"
+                recv[p] = {}
+                srverr.pop(p, None)
                 if nfailed:
                     stats["ops_after_a_failure_elsewhere"] += 1
             elif r == "c":
+                want = "Propose" if t == "w" else "Read"
+                if p in srverr:
+                    bad("process %d: the service answered the %s request of this operation with the error status %s, yet the operation is recorded as "
+                        "completed (an rpc that returned an error must be recorded as a failure and retire the process)" % (p, srverr[p][0], srverr[p][1]), pos)
+                elif recv.get(p, {}).get(want, 0) != 1:
+                    bad("process %d: the operation is recorded as completed, the service received %d %s requests for it (exactly one expected)" % (
+                        p, recv.get(p, {}).get(want, 0), want), pos)
                 if s[0] != "returned" or s[3] != "ok" or s[1] != t:
                     bad("process %d: completion recorded without a returned successful %s rpc (state %s)" % (p, t, s[0]), pos)
                 elif t == "w" and v != s[2]:
@@ -669,11 +686,42 @@ def analyse_proto(b):
                 p = int(x[1])
                 s = st.get(p, ("ready",))
                 lastm[p] = x[2]
+                if s[0] == "returned" and s[3] == "err":
+                    bad("process %d: after an rpc of its operation returned an error status the client sent another request (%s) instead of recording "
+                        "the failure" % (p, x[2]), pos)
                 if s[0] == "invoked":
                     st[p] = ("started", s[1], s[2])
                     hobs.append("HStart %d" % p)
                 elif s[0] != "started":
                     bad("process %d: rpc %s started without a recorded invocation (state %s)" % (p, x[2], s[0]), pos)
+            elif what == "recv":
+                # what the SERVICE received: one recorded invocation = at most one GetSession and one Propose (write) / one Read (read)
+                p, m = int(x[1]), x[2]
+                s = st.get(p, ("ready",))
+                stats["requests_received"] += 1
+                if s[0] not in ("invoked", "started", "returned"):
+                    bad("the service received a %s request of process %d which has no operation in flight (state %s)" % (m, p, s[0]), pos)
+                else:
+                    c = recv.setdefault(p, {})
+                    c[m] = c.get(m, 0) + 1
+                    okm = ("GetSession", "Propose") if s[1] == "w" else ("Read",)
+                    if m not in okm:
+                        bad("the service received a %s request for a recorded %s of process %d" % (m, "write" if s[1] == "w" else "read", p), pos)
+                    elif c[m] > 1:
+                        bad("process %d: the service received %d %s requests for ONE recorded %s%s: the history says one operation, the service saw "
+                            "the request twice" % (p, c[m], m, "write" if s[1] == "w" else "read",
+                                                   (" (the first one was answered with status %s)" % srverr[p][1]) if p in srverr else ""), pos)
+                    elif m == "Propose" and len(x) > 3 and int(x[3]) != s[2]:
+                        bad("process %d: the service received a proposal of value %s, the recorded invocation says %d" % (p, x[3], s[2]), pos)
+            elif what == "reply":
+                p = int(x[1])
+                s = st.get(p, ("ready",))
+                stats["error_replies"] += 1
+                stats["error_codes"][x[4]] = stats["error_codes"].get(x[4], 0) + 1
+                if s[0] in ("invoked", "started", "returned") and p not in srverr:
+                    srverr[p] = (x[2], x[4])
+            elif what == "again":
+                bad("process %d: after the service answered, the client sent the request again instead of recording the result" % int(x[1]), pos)
             elif what in ("dedup", "rejected"):
                 # the register (dragonboat session semantics) did not apply the proposal: its client session / series id
                 # was used before (at-most-once cache) or is unknown
@@ -820,7 +868,7 @@ def run(ck):
                       "process id 0..2000 in some history; random histories of clients of an atomic register (also handed to the real CheckEvents); arbitrary "
                       "non-well-formed lists; numbers beyond Go's int (model comparison only). (b) random scripts (schedule / schedule with the history mutex held / "
                       "short-deadline round / round in which the replica handed out is down (connection refused | peer silent; all | one of two replicas) / "
-                      "release rpc ok|error|error-after-effect / client timeout / open record gate / fail GetSession with a status code / GetSession not answered) "
+                      "release rpc ok|error|error-after-effect|error-and-the-write-is-applied-later / apply such a write / client timeout / open record gate / fail GetSession with a status code / GetSession not answered) "
                       "over 1..2000 processes against gated gRPC stubs; directed: every failure stage (connect, session, data rpc) x every status code, followed by "
                       "further rounds. (c) hand-written log texts: the same lines in every text form (LF / CRLF / mixed, last line unterminated, blank lines, "
                       "blank line of 4095 bytes), white space and leading zeros inside lines, cas lines, ignored lines, stray CR, odd bytes, lines at and over "
@@ -900,6 +948,16 @@ def run(ck):
             sd = rng.randrange(1, 2 ** 31)
             pcases.append((sd, 1, ["FH", "ST", "G:0", "S", "R:0:ok", "G:0", "S", "R:0:ok", "G:0"]))
             pcases.append((sd + 1, 2, ["FH", "ST", "R:0:ok", "G:0", "G:0", "S", "R:0:ok", "R:0:ok", "G:0", "G:0", "S", "R:0:ok", "G:0"]))
+        # what the SERVICE received vs what the history says: every status code at the data rpc, the rejected proposal nevertheless
+        # accepted and applied late - after other processes' operations completed - followed by further rounds (reads see it)
+        for code in CODES:
+            for k in range(2 if quick else 10):
+                sd = rng.randrange(1, 2 ** 31)
+                ok1 = ["R:0:ok", "G:0"]
+                pcases.append((sd, 1, ["S", "R:0:errlate:" + code, "G:0", "S"] + ok1 + ["L:0", "S"] + ok1))
+                pcases.append((sd + 1, 3, ["S", "R:0:errlate:" + code] + ["R:0:ok"] * 2 + ["G:0"] * 3 + ["S"] + ok1 * 2 + ["L:0", "S"] + ok1 * 2 + ["S"] + ok1 * 2))
+                pcases.append((sd + 2, rng.choice([2, 4]), ["S", "R:1:errlate:" + code, "R:0:ok", "G:0", "G:0", "R:0:ok", "G:0", "R:0:ok", "G:0", "L:0", "S"]
+                               + ok1 * 3 + ["S"] + ok1 * 3))
         # strictly sequential runs of one process (and two processes taking turns) against the register: every read must see the latest
         # completed write, the run must be accepted by the real checker; the register applies a proposal at most once per session series id
         for k in range(12 if quick else 120):
@@ -1033,7 +1091,8 @@ def run(ck):
         return
     pitems, pitem_case, clean_b = [], [], []   # clean_b: no crash, no well-formedness monitor failure
     tot = {"ops": 0, "failed": 0, "timeouts": 0, "late_effects": 0, "gates": 0, "conn_failures": 0, "not_applied": 0,
-           "failed_at_connect": 0, "failed_at_session": 0, "failed_at_propose": 0, "failed_at_read": 0, "ops_after_a_failure_elsewhere": 0}
+           "failed_at_connect": 0, "failed_at_session": 0, "failed_at_propose": 0, "failed_at_read": 0, "ops_after_a_failure_elsewhere": 0,
+           "requests_received": 0, "error_replies": 0, "error_codes": {}}
     skipped = 0
     for ci, ((sd, np, cmds), b) in enumerate(zip(pcases, blocks)):
         ck.count_case(plines[ci], nontrivial=len(b["events"]) > 0)
@@ -1049,7 +1108,11 @@ def run(ck):
             rep.violation("monitor:no_crash", "protocol run crashed: %s" % b["status"], replay)
         fail, hobs, stats, seq = analyse_proto(b)
         for k in tot:
-            tot[k] += stats[k]
+            if k == "error_codes":
+                for c, n in stats[k].items():
+                    tot[k][c] = tot[k].get(c, 0) + n
+            else:
+                tot[k] += stats[k]
         if fail:
             ok = False
             rep.violation("monitor:wellformed", "recorded history is not a faithful, well-formed account of what the clients did: " + fail,
